@@ -16,12 +16,15 @@ PkgForms == {"a", "a.b", "a . b", "a/**/.b", "a.\nb", "pkgkw"}   \* pkgkw: a com
 PkgName(form) == CASE form = "a" -> "a" [] form = "pkgkw" -> "import.public" [] OTHER -> "a.b"
 
 ImpKinds == {"plain", "public", "weak"}
-PathForms == {"dq", "sq", "split", "hexesc", "split3"}   \* "f1.proto" | 'f1.proto' | "f1." "proto" | "\x66" "1.proto" | three pieces
+PathForms == {"dq", "sq", "split", "hexesc", "split3", "octesc"}   \* "f1.proto" | 'f1.proto' | "f1." "proto" | "\x66" "1.proto" | three pieces
 
 FillKinds == {"linecomment", "blockcomment", "option_str", "option_msglit", "option_angle", "message_kwfields",
-              "message_named_import", "enum_kwvalues", "empty_stmt", "service", "extend_brackets", "nested_close"}
+              "message_named_import", "enum_kwvalues", "empty_stmt", "service", "extend_brackets", "nested_close",
+              "blockcomment_stars",   \* /** doc **/  /***/  /* x **/ : comment ends after an even / odd run of stars
+              "option_str_octal"}     \* string literals with 1-, 2- and 3-digit octal escapes followed by non-octal characters
 
-Layouts == {"space", "newline", "blockcomment", "linecomment", "tab_crlf"}
+Layouts == {"space", "newline", "blockcomment", "linecomment", "tab_crlf", "starcomment",
+            "tight"}   \* no trivia at all between tokens unless two word-like tokens would fuse
 
 Items == [k : {"PKG"}, form : PkgForms] \cup [k : {"IMP"}, kind : ImpKinds, path : PathForms] \cup [k : {"FILL"}, fill : FillKinds]
 
